@@ -67,6 +67,7 @@ def run(ctx, report, prop, spec_file, modules, reviewed=None, skip_sides=None):
                 else:
                     report.sample({'rule': R1, 'class': name, 'side': side, 'verdict': 'reviewed', 'reason': reviewed[rk]['reason']}, 40)
                 continue
+            attribute_names(ctx, report, R1, recv, c, side, cm)
             for d in cm.diffs:
                 report.add(R1, '%s@%s/%s' % (c.construct, side, diff_key(d)),
                            '%s side differs from %s: %s' % ('parser' if side == 'parse' else 'composer', entry.get('ref', 'the specification'), d.detail))
@@ -89,6 +90,35 @@ def run(ctx, report, prop, spec_file, modules, reviewed=None, skip_sides=None):
             if base_defines_layout(c, model.cls(base)):
                 continue
         report.add(R3, c.construct + '@unspecified', 'wire structure %s has no entry in sa/specs/%s' % (c.name, spec_file))
+
+
+def attribute_names(ctx, report, rule, recv, c, side, cm):
+    """spec items that name the attribute they carry ("attr"): the parser must bind that position to the attribute and
+    the composer must read it there (detects two same-width fields swapped consistently on both sides)"""
+    from .compare import compose_root, parse_bindings
+    binds = None
+    for a, b in cm.pairs:
+        sp = b.extra.get('spec') if hasattr(b, 'extra') else None
+        if not sp or not sp.get('attr'):
+            continue
+        want = sp['attr']
+        report.count(rule)
+        if side == 'parse':
+            if a.key is None or a.op is None or getattr(a.op, 'target', None) is None:
+                continue
+            if binds is None:
+                binds = parse_bindings(ctx.canon.layout(recv, 'parse').result, recv, ctx.model)
+            got = {x[0] for x in binds.get((id(a.op.target), a.key), [])}
+            if got and want not in got:
+                report.add(rule, '%s@parse/attr[%s]' % (c.construct, want),
+                           'the field the specification calls %s is parsed into attribute %s' % (want, sorted(got)))
+        else:
+            src = a.extra.get('val_base') if a.extra.get('expanded_from') is not None and a.extra.get('val_base') is not None else a.val
+            roots = {r[0] for r in compose_root(src)} if src is not None else set()
+            roots.discard('*')
+            if roots and want not in roots:
+                report.add(rule, '%s@compose/attr[%s]' % (c.construct, want),
+                           'at the position of %s the composer writes attribute %s' % (want, sorted(roots)))
 
 
 def base_defines_layout(c, base):
